@@ -71,6 +71,8 @@ type Frame struct {
 }
 
 type Exec struct {
+	fwCount map[string]int // ordinals of field-write obligations
+	privSlice map[*ssa.Alloc]bool // cache of privateSliceCell
 	loopOwner *FuncContract // contract whose loop clauses cut the loops of the function being executed
 	elemIdx string // index term of the `fs[i]()` call whose call-site contracts are being checked
 	vc   *VC
@@ -126,7 +128,7 @@ type liveObj struct {
 func newExec(p *Prog, db *ContractDB) *Exec {
 	x := &Exec{vc: newVC(p), p: p, db: db, closures: map[string]*closureInfo{}, memSym: map[string]string{}, memVer: map[string]int{},
 		memType: map[string]types.Type{}, unsupported: map[string]bool{}, maxDepth: 3, callCount: map[string]int{}, oblNames: map[string]int{},
-		inlinedFns: map[string]bool{}, usedContracts: map[string]bool{}, usedExterns: map[string]bool{}}
+		inlinedFns: map[string]bool{}, usedContracts: map[string]bool{}, usedExterns: map[string]bool{}, fwCount: map[string]int{}}
 	return x
 }
 
@@ -396,7 +398,7 @@ func (x *Exec) havocKeys(st *State, keys []string) {
 // havocKeysCall havocs the memory a call may write, but keeps the contents of objects that
 // cannot have escaped to the callee.
 func (x *Exec) havocKeysCall(st *State, keys []string, args []string) {
-	if len(x.liveObjs) == 0 && len(x.owned) == 0 {
+	if len(x.liveObjs) == 0 && len(x.owned) == 0 && !x.hasPrivateSlices(st) {
 		x.havocKeys(st, keys)
 		return
 	}
@@ -410,6 +412,7 @@ func (x *Exec) havocKeysCall(st *State, keys []string, args []string) {
 	for _, o := range x.liveObjs {
 		x.preserveObj(st, o.typ, o.ptr, before)
 	}
+	x.preservePrivateSlices(st, before)
 	for _, o := range x.owned {
 		handed := false
 		for _, a := range args {
@@ -426,6 +429,59 @@ func (x *Exec) havocKeysCall(st *State, keys []string, args []string) {
 				x.vc.assert(fmt.Sprintf("(= (select %s %s) (select %s %s))", cur, o.ptr, old, o.ptr))
 			}
 		}
+	}
+}
+
+// private slice variables (see privateSliceCell): a callee cannot write their elements
+func (x *Exec) hasPrivateSlices(st *State) bool {
+	for a := range st.cells {
+		if x.isPrivateSlice(a) {
+			return true
+		}
+	}
+	return false
+}
+
+func (x *Exec) isPrivateSlice(a *ssa.Alloc) bool {
+	if os.Getenv("GOVC_NO_PRIVSLICE") != "" {
+		return false
+	}
+	if x.privSlice == nil {
+		x.privSlice = map[*ssa.Alloc]bool{}
+	}
+	v, ok := x.privSlice[a]
+	if !ok {
+		v = privateSliceCell(a)
+		x.privSlice[a] = v
+	}
+	return v
+}
+
+func (x *Exec) preservePrivateSlices(st *State, before map[string]string) {
+	var cells []*ssa.Alloc
+	for a := range st.cells {
+		if x.isPrivateSlice(a) {
+			cells = append(cells, a)
+		}
+	}
+	sort.Slice(cells, func(i, j int) bool { return cells[i].Pos() < cells[j].Pos() })
+	for _, a := range cells {
+		et := deref(a.Type()).Underlying().(*types.Slice).Elem()
+		if _, isStruct := et.Underlying().(*types.Struct); isStruct {
+			continue
+		}
+		k := cellMemKey(et)
+		old, ok := before[k]
+		if !ok {
+			continue
+		}
+		cur := x.memGet(st, k, x.vc.memSorts[k])
+		if cur == old {
+			continue
+		}
+		sl := st.cells[a]
+		q := x.vc.fresh("q_pe")
+		x.assume(st, fmt.Sprintf("(forall ((%s Int)) (= (select %s (pelem (sl_arr %s) %s)) (select %s (pelem (sl_arr %s) %s))))", q, cur, sl, q, old, sl, q))
 	}
 }
 
